@@ -201,9 +201,16 @@ def build_expression(
                     sigma=sigma,
                 )
 
-            return getattr(sp, tree.children[0])(
-                *[expr2symbols(c) for c in tree.children[1:]],
-            )
+            logical_args = [expr2symbols(c) for c in tree.children[1:]]
+            value = getattr(sp, tree.children[0])(*logical_args)
+            if isinstance(value, sp.logic.boolalg.BooleanAtom) and any(
+                sp.sympify(arg).free_symbols for arg in logical_args
+            ):
+                # sympy decides comparisons from the assumptions of their sides, and
+                # draws wrong conclusions for unevaluated quotients (see floor above):
+                # Eq(floor(x), 10*Gt(a, b)/7) became False. Only numbers are compared here.
+                value = getattr(sp, tree.children[0])(*logical_args, evaluate=False)
+            return value
 
         raise InvalidTreeError(tree=tree)
 
